@@ -102,6 +102,27 @@ fn mmom(a: usize, tick: u32) -> MomentumMarketAgent {
     MomentumMarketAgent::new(200, 4, a, MomentumParams { tick_size: tick, p_cancel: 0.2, trade_vol: 2, decay: 0.5, demand: 5.0, scale: 0.5, order_ratio: 1.0, price_dist_mu: 0.0, price_dist_sigma: 2.0 })
 }
 
+// a second parameterisation of every agent type (other probabilities, demand, scale, population):
+// used for the simulation that shares a thread with the first one
+fn rnd_b(tick: u32) -> RandomAgents {
+    RandomAgents::new(3, (95, 106), (2, 5), tick, 0.9)
+}
+fn noise_b(tick: u32) -> NoiseAgent {
+    NoiseAgent::new(100, 4, NoiseAgentParams { tick_size: tick, p_limit: 0.3, p_market: 0.5, p_cancel: 0.1, trade_vol: 2, price_dist_mu: 0.0, price_dist_sigma: 3.0 })
+}
+fn mom_b(tick: u32) -> MomentumAgent {
+    MomentumAgent::new(200, 3, MomentumParams { tick_size: tick, p_cancel: 0.4, trade_vol: 3, decay: 0.5, demand: 2.0, scale: 3.0, order_ratio: 0.5, price_dist_mu: 0.0, price_dist_sigma: 2.0 })
+}
+fn mrnd_b(a: usize, tick: u32) -> RandomMarketAgents {
+    RandomMarketAgents::new(a, 3, (95, 106), (2, 5), tick, 0.9)
+}
+fn mnoise_b(a: usize, tick: u32) -> NoiseMarketAgent {
+    NoiseMarketAgent::new(a, 100, 4, NoiseAgentParams { tick_size: tick, p_limit: 0.3, p_market: 0.5, p_cancel: 0.1, trade_vol: 2, price_dist_mu: 0.0, price_dist_sigma: 3.0 })
+}
+fn mmom_b(a: usize, tick: u32) -> MomentumMarketAgent {
+    MomentumMarketAgent::new(200, 3, a, MomentumParams { tick_size: tick, p_cancel: 0.4, trade_vol: 3, decay: 0.5, demand: 2.0, scale: 3.0, order_ratio: 0.5, price_dist_mu: 0.0, price_dist_sigma: 2.0 })
+}
+
 pub const COMPOSITIONS: [&str; 9] = ["random", "noise", "momentum", "random+noise", "noise+momentum", "all-three", "nested(random+noise)+momentum", "noise x1500 (more than 1024 instructions per step)", "random x70000 (more than 65535 traders)"];
 
 #[derive(Clone, Debug, PartialEq, Eq, PartialOrd, Ord)]
@@ -387,104 +408,116 @@ fn interleaved_part(out: &mut Outcome) {
     use bourse_book::types::Side;
     let steps = 25u64;
     let mut pairs = 0u64;
-    for (name, mk) in [
-        ("noise", 0usize),
-        ("momentum", 1),
-        ("all-three", 2),
-    ] {
-        for multi in [false, true] {
-            pairs += 1;
-            // two different markets: tick 1 around 100 and tick 5 around 500
-            let run = |interleaved: bool| -> Result<Vec<(u64, u64)>, String> {
-                util::subject(|| {
-                    if !multi {
-                        let mut envs: Vec<Env> = [1u32, 5].iter().map(|t| {
-                            let mut e = Env::new(0, *t, 100, true);
-                            e.place_order(Side::Bid, 20, 9999, Some(98 * t)).unwrap();
-                            e.place_order(Side::Ask, 20, 9999, Some(102 * t)).unwrap();
-                            e
-                        }).collect();
-                        let mut rngs: Vec<Xoroshiro128StarStar> = vec![Xoroshiro128StarStar::seed_from_u64(5), Xoroshiro128StarStar::seed_from_u64(6)];
-                        let mut ag: Vec<SetAll> = [1u32, 5].iter().map(|t| SetAll { r: rnd(*t), n: noise(*t), m: mom(*t) }).collect();
-                        let upd = |a: &mut SetAll, e: &mut Env, r: &mut Xoroshiro128StarStar| match mk {
-                            0 => a.n.update(e, r),
-                            1 => a.m.update(e, r),
-                            _ => a.update(e, r),
-                        };
-                        if interleaved {
-                            for _ in 0..steps {
-                                for i in 0..2 {
-                                    upd(&mut ag[i], &mut envs[i], &mut rngs[i]);
+    let mut runs = 0u64;
+    // how the two simulations share a thread: 0 = each alone on a thread of its own (reference),
+    // 1 = interleaved round by round, 2 = A completely then B, 3 = B completely then A
+    const MODES: [&str; 4] = ["each alone on a fresh thread", "interleaved round by round on one thread", "A then B on one thread", "B then A on one thread"];
+    // (ticks of A and B): different ticks, and equal ticks with different agent parameters
+    for ticks in [[1u32, 5], [2, 2]] {
+        for (name, mk) in [("noise", 0usize), ("momentum", 1), ("all-three", 2)] {
+            for multi in [false, true] {
+                pairs += 1;
+                let run = move |mode: usize| -> Result<Vec<(u64, u64)>, String> {
+                    // the order in which (simulation, round) pairs are executed
+                    let schedule: Vec<Vec<(usize, u64)>> = match mode {
+                        0 => vec![(0..steps).map(|r| (0usize, r)).collect(), (0..steps).map(|r| (1usize, r)).collect()],
+                        1 => vec![(0..steps).flat_map(|r| [(0usize, r), (1usize, r)]).collect()],
+                        2 => vec![(0..steps).map(|r| (0usize, r)).chain((0..steps).map(|r| (1usize, r))).collect()],
+                        _ => vec![(0..steps).map(|r| (1usize, r)).chain((0..steps).map(|r| (0usize, r))).collect()],
+                    };
+                    let mut digests: Vec<Option<(u64, u64)>> = vec![None, None];
+                    // every element of `schedule` runs on a thread of its own
+                    for part in schedule {
+                        let h = std::thread::spawn(move || {
+                            util::subject(|| {
+                                let mut res: Vec<(usize, (u64, u64))> = Vec::new();
+                                if !multi {
+                                    let mut envs: Vec<Env> = ticks.iter().map(|t| {
+                                        let mut e = Env::new(0, *t, 100, true);
+                                        e.place_order(Side::Bid, 20, 9999, Some(98 * t)).unwrap();
+                                        e.place_order(Side::Ask, 20, 9999, Some(102 * t)).unwrap();
+                                        e
+                                    }).collect();
+                                    let mut rngs: Vec<Xoroshiro128StarStar> = vec![Xoroshiro128StarStar::seed_from_u64(5), Xoroshiro128StarStar::seed_from_u64(6)];
+                                    let mut ag: Vec<SetAll> = vec![SetAll { r: rnd(ticks[0]), n: noise(ticks[0]), m: mom(ticks[0]) }, SetAll { r: rnd_b(ticks[1]), n: noise_b(ticks[1]), m: mom_b(ticks[1]) }];
+                                    for (i, _) in &part {
+                                        match mk {
+                                            0 => ag[*i].n.update(&mut envs[*i], &mut rngs[*i]),
+                                            1 => ag[*i].m.update(&mut envs[*i], &mut rngs[*i]),
+                                            _ => ag[*i].update(&mut envs[*i], &mut rngs[*i]),
+                                        }
+                                        envs[*i].step(&mut rngs[*i]);
+                                    }
+                                    for i in 0..2 {
+                                        if part.iter().any(|(j, _)| *j == i) {
+                                            res.push((i, digest_env(&envs[i])));
+                                        }
+                                    }
+                                } else {
+                                    let mut envs: Vec<MarketEnv<2, 10>> = ticks.iter().map(|t| {
+                                        let mut e: MarketEnv<2, 10> = MarketEnv::new(0, [*t, *t], 100, true);
+                                        for a in 0..2 {
+                                            e.place_order(a, Side::Bid, 20, 9999, Some(98 * t)).unwrap();
+                                            e.place_order(a, Side::Ask, 20, 9999, Some(102 * t)).unwrap();
+                                        }
+                                        e
+                                    }).collect();
+                                    let mut rngs: Vec<Xoroshiro128StarStar> = vec![Xoroshiro128StarStar::seed_from_u64(5), Xoroshiro128StarStar::seed_from_u64(6)];
+                                    let mut ag: Vec<MSetAll> = vec![MSetAll { r: mrnd(0, ticks[0]), n: mnoise(1, ticks[0]), m: mmom(1, ticks[0]) }, MSetAll { r: mrnd_b(0, ticks[1]), n: mnoise_b(1, ticks[1]), m: mmom_b(1, ticks[1]) }];
+                                    for (i, _) in &part {
+                                        match mk {
+                                            0 => ag[*i].n.update(&mut envs[*i], &mut rngs[*i]),
+                                            1 => ag[*i].m.update(&mut envs[*i], &mut rngs[*i]),
+                                            _ => ag[*i].update(&mut envs[*i], &mut rngs[*i]),
+                                        }
+                                        envs[*i].step(&mut rngs[*i]);
+                                    }
+                                    for i in 0..2 {
+                                        if part.iter().any(|(j, _)| *j == i) {
+                                            res.push((i, digest_menv(&envs[i])));
+                                        }
+                                    }
                                 }
-                                for i in 0..2 {
-                                    envs[i].step(&mut rngs[i]);
+                                res
+                            })
+                        });
+                        match h.join() {
+                            Ok(Ok(res)) => {
+                                for (i, d) in res {
+                                    digests[i] = Some(d);
                                 }
                             }
-                        } else {
-                            for i in 0..2 {
-                                for _ in 0..steps {
-                                    upd(&mut ag[i], &mut envs[i], &mut rngs[i]);
-                                    envs[i].step(&mut rngs[i]);
-                                }
-                            }
+                            Ok(Err(m)) => return Err(m),
+                            Err(_) => return Err("worker thread died".into()),
                         }
-                        envs.iter().map(digest_env).collect()
-                    } else {
-                        let mut envs: Vec<MarketEnv<2, 10>> = [1u32, 5].iter().map(|t| {
-                            let mut e: MarketEnv<2, 10> = MarketEnv::new(0, [*t, *t], 100, true);
-                            for a in 0..2 {
-                                e.place_order(a, Side::Bid, 20, 9999, Some(98 * t)).unwrap();
-                                e.place_order(a, Side::Ask, 20, 9999, Some(102 * t)).unwrap();
-                            }
-                            e
-                        }).collect();
-                        let mut rngs: Vec<Xoroshiro128StarStar> = vec![Xoroshiro128StarStar::seed_from_u64(5), Xoroshiro128StarStar::seed_from_u64(6)];
-                        let mut ag: Vec<MSetAll> = [1u32, 5].iter().map(|t| MSetAll { r: mrnd(0, *t), n: mnoise(1, *t), m: mmom(1, *t) }).collect();
-                        let upd = |a: &mut MSetAll, e: &mut MarketEnv<2, 10>, r: &mut Xoroshiro128StarStar| match mk {
-                            0 => a.n.update(e, r),
-                            1 => a.m.update(e, r),
-                            _ => a.update(e, r),
-                        };
-                        if interleaved {
-                            for _ in 0..steps {
-                                for i in 0..2 {
-                                    upd(&mut ag[i], &mut envs[i], &mut rngs[i]);
-                                }
-                                for i in 0..2 {
-                                    envs[i].step(&mut rngs[i]);
-                                }
-                            }
-                        } else {
-                            for i in 0..2 {
-                                for _ in 0..steps {
-                                    upd(&mut ag[i], &mut envs[i], &mut rngs[i]);
-                                    envs[i].step(&mut rngs[i]);
-                                }
-                            }
-                        }
-                        envs.iter().map(digest_menv).collect()
                     }
-                })
-            };
-            let replay = json!({"agents": name, "multi_asset": multi, "steps": steps, "simulations": "A: tick 1, seed 5; B: tick 5, seed 6"});
-            match (run(false), run(true)) {
-                (Ok(solo), Ok(inter)) => {
-                    if solo != inter {
-                        out.fail_other(
-                            "determinism/interleaved-simulations-influence-each-other",
-                            format!("{} agents: two independent simulations advanced in lock-step on one thread give outputs {:?}, run one after the other {:?}", name, inter, solo),
-                            replay,
-                        );
+                    Ok(digests.into_iter().map(|d| d.unwrap_or((0, 0))).collect())
+                };
+                let reference = run(0);
+                runs += 2;
+                for mode in 1..4 {
+                    runs += 2;
+                    let replay = json!({"agents": name, "multi_asset": multi, "steps": steps, "ticks": ticks, "simulations": "A: seed 5, first parameter set; B: seed 6, second parameter set", "thread_sharing": MODES[mode]});
+                    match (&reference, &run(mode)) {
+                        (Ok(solo), Ok(shared)) => {
+                            if solo != shared {
+                                out.fail_other(
+                                    "determinism/interleaved-simulations-influence-each-other",
+                                    format!("{} agents, ticks {:?}: two independent simulations ({}) give outputs {:?}; each alone on a fresh thread {:?}", name, ticks, MODES[mode], shared, solo),
+                                    replay,
+                                );
+                            }
+                        }
+                        (Err(m), _) | (_, Err(m)) => out.fail_other(&format!("determinism/abort/{}", util::panic_sig(m)), m.clone(), replay),
                     }
                 }
-                (Err(m), _) | (_, Err(m)) => out.fail_other(&format!("determinism/abort/{}", util::panic_sig(&m)), m, replay),
             }
         }
     }
-    out.add_u64("states", pairs * 4);
-    out.add_u64("transitions", pairs * 4 * steps);
-    out.add_u64("traces_validated_against_impl", pairs * 4);
-    out.set("interleaved_simulations", json!({"pairs": pairs, "steps": steps, "rule": "two simulations with different ticks, prices and seeds; update A, update B, step A, step B on one thread vs each run alone"}));
+    out.add_u64("states", runs);
+    out.add_u64("transitions", runs * steps);
+    out.add_u64("traces_validated_against_impl", runs);
+    out.set("interleaved_simulations", json!({"pairs": pairs, "steps": steps, "thread_sharing": MODES, "rule": "two simulations with different seeds, prices and AGENT PARAMETERS (and ticks 1/5 or 2/2) share one thread in three ways; each must equal the same simulation run alone on a fresh thread"}));
 }
 
 /// environment variables the library reads (scanned from its sources): a child process is run
